@@ -34,6 +34,12 @@ def generate(rng, tier):
         add("literal|from_slice 2 %d 98" % x, "ctor")
         add("literal|from_vec 2 %d 98" % x, "ctor")
     esc = [92, 117, 123, 125, 48, 51, 102, 70, 34]
+    # escape values around the MAX_CHAR boundary, written out
+    for hexs in ("2FFFF", "2ffff", "30000", "30001", "2FFFE", "02FFFF", "3FFFF", "FFFFF", "10FFFF", "0", "D800", "FFFD"):
+        t = [92, 117, 123] + [ord(ch) for ch in hexs] + [125]
+        add("regex|ctorstr parse %s" % w(t), "parse")
+        add("regex|ctorstr parse %s" % w([97] + t + [98]), "parse")
+        add("literal|parse %s" % w(t), "parse")
     for _ in range(n):
         r = rng.random()
         if r < 0.25:
@@ -45,7 +51,7 @@ def generate(rng, tier):
         elif r < 0.65:
             l = [rng.choice(esc + [0x30000, 0x10FFFF, 97]) for _ in range(rng.randint(0, 9))]
             if rng.random() < 0.5:      # planted out-of-range / large brace escapes
-                l += [92, 117, 123] + [rng.choice([50, 51, 70, 102, 49]) for _ in range(rng.randint(1, 6))] + [125]
+                l += [92, 117, 123] + [rng.choice([48, 48, 50, 51, 70, 102, 49]) for _ in range(rng.randint(1, 6))] + [125]
             add("regex|ctorstr parse %s" % w(l), "parse")
         elif r < 0.80:
             # string operations on good strings stay good (results are words; the model is proved good)
